@@ -2,7 +2,7 @@
 ID = "C20"
 LEVEL = "exploration"
 LEVEL_TEXT = (
-    "PROVED (unbounded in the grid, z3; unit lengths 14 (default), 3 and 4; no cell values supplied): MazePlot._lattice_maze_to_img returns an image of size (rows*ul+1) x (cols*ul+1) with "
+    "PROVED (unbounded in the grid, z3; unit lengths 14 (default), 3, 4, 5 and 8; no cell values supplied): MazePlot._lattice_maze_to_img returns an image of size (rows*ul+1) x (cols*ul+1) with "
     "one block per cell (pixels whose row and column are not multiples of ul carry the cell value 1), one separator strip per lattice edge drawn as PASSAGE (the connection value) exactly when the two "
     "cells are connected and as WALL (-1) otherwise, and wall on every other pixel (corners, top row, left column) - two nested loop invariants; MazePlot._rowcol_to_coord maps (row, col) to "
     "(x, y) = (ul*(col+0.5), ul*(row+0.5)): rows vertical, columns horizontal, through the cell centre; MazePlot._plot_path (line branch, any unit length, any path length >= 1) hands Axes.plot one point per listed cell, "
